@@ -36,6 +36,10 @@ RULES = [
     Rule('C03.M1', 'a remembered engine result is keyed by every input it was computed from', memo_keys_rule(('fpy2/number/engine/', 'fpy2/number/gmputils.py', 'fpy2/ops.py'), 'operands, precision and digit position'), 1, 'M'),
     Rule('C03.F4', 'MPFR values are built and MPFR operations run only under a context the library sets (operands keep their exponent)', E.g2_mpfr_context, 20, 'F'),
     Rule('C03.F3', 'round_params widens the engine precision by the stochastic bits in every family', E.f3_round_params, 10, 'S'),
+    # the engine's result is rounded by the context, under its mode: every finite non-zero value goes through the rounding
+    # core -- a shortcut around it answers for the modes its author thought of
+    Rule('C03.P2', 'no context returns a finite non-zero value without going through the rounding call (= C17.P3)',
+         lambda ctx: __import__('sa.props.c17', fromlist=['p3_round_reached']).p3_round_reached(ctx), 15, 'P'),
 ]
 
 from ..selftest import Mutant  # noqa: E402
